@@ -171,6 +171,31 @@ theorem history_transparent_univariate_prime {p : Nat} (hp : p.Prime) (h32 : p -
       = runOps env (.prime p) s ops :=
   (history_transparent_univariate (envAgreeU_prime hp h32 tabs env henv hring) _ ops hops hs).1
 
+/-- extension fields (`extOps p n g` against `extOpsT`): `EnvAgree` is T13/`envAgree_ext`; the
+    validity of `ofNat ofInt parse` is NOT part of `Assemble.FieldFacts` and is taken here as the
+    explicit hypothesis `hctor` (for the `Define`d fields it follows from `ExtField`'s constructor
+    lemmas, not packaged).  With it, T22 applies to extension fields with a logarithm table. -/
+theorem envAgreeU_ext {p n : Nat} {g : List Nat} {K : Type} [Field K] (L : Lawful (extOps p n g) K)
+    (hL : Assemble.FieldFacts L p n) (hcanon : ∀ a, L.valid a → UPoly.Canon (primeOps p) a)
+    (hq : p ^ n ≤ 2 ^ 63) (tabs : Nat → Bool) (env : Env (UPoly Nat))
+    (henv : ∀ i, env.fld i = extOps p n g)
+    (hctor : ∀ k z str v, L.valid ((extOps p n g).ofNat k) ∧ L.valid ((extOps p n g).ofInt z) ∧
+      ((extOps p n g).parse str = .ok v → L.valid v))
+    (hring : ∀ i, (env.uring i).F = extOps p n g ∧
+      ∀ m, (env.uring i).modulus = some m → ∀ c ∈ m, L.valid c) :
+    EnvAgreeU env
+      { env with fld := fun i => extOpsT p n g (tabs i),
+                 uring := fun i => { env.uring i with F := extOpsT p n g (tabs 0) } }
+      (fun _ => L.valid) where
+  base := ⟨(envAgree_ext L hL hcanon hq tabs env henv).agree,
+    (envAgree_ext L hL hcanon hq tabs env henv).closed⟩
+  down := fun _ _ h => h
+  ofNat := fun i k => by rw [henv i]; exact (hctor k 0 "" []).1
+  ofInt := fun i z => by rw [henv i]; exact (hctor 0 z "" []).2.1
+  parse := fun i str v hv => by rw [henv i] at hv; exact (hctor 0 0 str v).2.2 hv
+  ringOK := fun i => ⟨by rw [(hring i).1, henv 0], (hring i).2⟩
+  ring' := fun _ => rfl
+
 /-! ### non-vacuity: GF(7), base ring `F_7[X]` and quotient ring `F_7[X]/(X² + 1)` -/
 
 /-- untabled environment: all field objects GF(7); ring 1 is the quotient ring modulo `X² + 1` -/
@@ -241,5 +266,103 @@ example :
     constructors covered) is outside the addition table -/
 example : UPoly.add (primeOpsT 7 true true) [9] [1] ≠ UPoly.add (primeOps 7) [9] [1] := by
   decide +kernel
+
+/-! ## (f) the full statement: what remains
+
+  `history_transparent_full` (Props/C18Tables.lean) stays unproved — and is refuted as stated (T24).
+  COVERED by T22/T23: every `Op` constructor `eCtor` (all `how` except "enc"), `eBin eUn ePow eIn
+  eProd eSetNeg eSetU eEq eShow`, `uCtor` (`nats ints zero one regs ideal`), `uBin uUn uScale uPow
+  uEval uCoef uLc uIn uSetNeg uSetScale uSetCoef uSetZero uEmbed uQuoRem uGcd uInterp uEq uObs`,
+  `tables`.
+  NOT COVERED: `uCtor … "str"` (`PolynomialFromString`: the post-processing `stringToMapRx.go` uses
+  `parse one neg add` of the record — the same congruence/closure argument applies with the `parse`
+  hypothesis of `EnvAgreeU`, not carried out); every bivariate constructor `bCtor bBin bUn bScale
+  bPow bEval bCoef bLc bIn bSetScale bSetCoef bQuoRem bRem bInterp bEq bObs`; every ideal constructor
+  `iNew iCopy iGroebner iPred iXform iGens iObs`; `bad` (trivial).  For the bivariate layer the same
+  method applies to `BPoly.*` (terms `(Deg × α)`, invariant "every coefficient valid"); the Gröbner
+  machinery additionally needs the invariant through `sPoly`/`reduceBasis` loops. -/
+
+/-- two DIFFERENT prime fields as field objects 0 and 1 (rings over field 0) -/
+def envMix : Env Nat where
+  fld := fun i => if i = 1 then primeOps 11 else primeOps 7
+  uring := fun _ => { F := primeOps 7, varName := "X", modulus := none }
+  bring := fun _ => { F := primeOps 7, ord := ⟨.lex, true⟩, varNames := ("X", "Y"), ideal := none }
+/-- … all tabled -/
+def envMixT : Env Nat where
+  fld := fun i => if i = 1 then primeOpsT 11 true true else primeOpsT 7 true true
+  uring := fun _ => { F := primeOpsT 7 true true, varName := "X", modulus := none }
+  bring := fun _ => { F := primeOpsT 7 true true, ord := ⟨.lex, true⟩, varNames := ("X", "Y"), ideal := none }
+def opsMix : List Op := [.eCtor 0 1 "one" "", .eUn 1 "neg" 0, .uCtor 0 0 "zero" "", .uSetCoef "set" 0 0 1, .uBin 1 "plus" 0 0]
+def VMix (i : Nat) (a : Nat) : Prop := if i = 1 then a < 11 else a < 7
+
+example : (runOps envMix (.prime 7) {} opsMix).2 = ["ok 1#1", "ok 1#10", "ok 0#0", "recv 0#10", "ok 0#6"] ∧
+    (runOps envMixT (.prime 7) {} opsMix).2 = ["ok 1#1", "ok 1#10", "ok 0#0", "recv 0#10", "ok 0#0"] := by
+  decide +kernel
+
+/-- C18-T24 (FINDING about the statement, not about the code).  `history_transparent_full` of
+    Props/C18Tables.lean, AS STATED, is false: it lets the validity sets `V i` differ between field
+    objects, but `SetCoef` / `IncrementCoef` on an absent term / `Polynomial([]ff.Element)` /
+    `Interpolate` copy the value of an element of ANY field object into a polynomial over field 0.
+    Counterexample: field object 0 = GF(7), field object 1 = GF(11) (both tabled in `envMixT`), the
+    element `-1 = 10` of GF(11) set as constant coefficient, then `f + f`: the untabled sum is
+    `20 mod 7 = 6`, the tabled one reads outside the 7×7 table (model default 0; Go panics).  The
+    corrected statement `history_transparent_full2` below adds `EnvAgreeU.down`
+    (valid in some field object ⇒ valid in field 0), which holds whenever all field objects of a
+    history are the same field — the situation of T17/T23. -/
+theorem history_transparent_full_false : ¬ history_transparent_full := by
+  intro H
+  have p7 : Nat.Prime 7 := by norm_num
+  have p11 : Nat.Prime 11 := by norm_num
+  have key := @H Nat envMix envMixT VMix (.prime 7) opsMix {}
+    ⟨fun i => by
+        by_cases hi : i = 1
+        · subst hi; exact (primeOpsT_agree p11 (by norm_num) true true).1
+        · have hV : VMix i = fun a => a < 7 := by funext a; simp only [VMix, hi, if_false]
+          have e1 : envMix.fld i = primeOps 7 := by simp only [envMix, hi, if_false]
+          have e2 : envMixT.fld i = primeOpsT 7 true true := by simp only [envMixT, hi, if_false]
+          rw [hV, e1, e2]
+          exact (primeOpsT_agree p7 (by norm_num) true true).1,
+     fun i => by
+        by_cases hi : i = 1
+        · subst hi; exact (primeOpsT_agree p11 (by norm_num) true true).2
+        · have hV : VMix i = fun a => a < 7 := by funext a; simp only [VMix, hi, if_false]
+          have e1 : envMix.fld i = primeOps 7 := by simp only [envMix, hi, if_false]
+          rw [hV, e1]
+          exact (primeOpsT_agree p7 (by norm_num) true true).2⟩
+    (fun i k z str v => by
+      by_cases hi : i = 1
+      · subst hi
+        exact ⟨Prime.element_lt p11.pos, Prime.fromSigned_lt p11.pos (by norm_num) z,
+          fun hv => prime_parse_lt p11.pos (by norm_num) hv⟩
+      · simp only [envMix, VMix, hi, if_false]
+        exact ⟨Prime.element_lt p7.pos, Prime.fromSigned_lt p7.pos (by norm_num) z,
+          fun hv => prime_parse_lt p7.pos (by norm_num) hv⟩)
+    (fun i => ⟨rfl, rfl, fun m hm => by cases hm⟩)
+    (fun i => ⟨rfl, rfl, fun m hm => by cases hm⟩)
+    ⟨fun k r hk => (by cases hk), fun k r hk => (by cases hk), fun k r hk => (by cases hk),
+      fun k r hk => (by cases hk)⟩
+    (by decide)
+  have := congrArg Prod.snd key
+  revert this
+  decide +kernel
+
+/-- NOT PROVED.  The corrected full statement: `EnvAgreeU` (which contains `down` and the validity
+    of `ofNat/ofInt/parse`, and the ring condition for the univariate rings), the ring condition for
+    the bivariate rings, a store valid everywhere, no raw-data constructors. -/
+def history_transparent_full2 : Prop :=
+  ∀ {α : Type} (env env' : Env α) (V : Nat → α → Prop) (desc : FieldDesc) (ops : List Op) (s : St α),
+    EnvAgreeU env env' V →
+    (∀ i, (env.bring i).F = env.fld 0 ∧ env'.bring i = { env.bring i with F := env'.fld 0 } ∧
+      ∀ gs, (env.bring i).ideal = some gs → ∀ f ∈ gs, ∀ t ∈ f, V 0 t.2) →
+    StoreOKAll V s → (∀ op ∈ ops, noRaw op = true) →
+    runOps env' desc s ops = runOps env desc s ops
+
+/-- what T22 gives towards `history_transparent_full2`: the same conclusion for histories within
+    `elemOrUOp` (the bivariate hypotheses are not needed) -/
+theorem history_transparent_full2_univariate {α : Type} (env env' : Env α) (V : Nat → α → Prop)
+    (desc : FieldDesc) (ops : List Op) (s : St α) (h : EnvAgreeU env env' V) (hs : StoreOKAll V s)
+    (hops : ∀ op ∈ ops, elemOrUOp op = true) :
+    runOps env' desc s ops = runOps env desc s ops :=
+  (history_transparent_univariate h desc ops hops (storeOKU_of_all hs)).1
 
 end Algobra.C18Tables
